@@ -1422,7 +1422,7 @@ Proof. exact Raft.MemberSnapLeader.leader_log_shape_snap. Qed.
 Print Assumptions leader_log_shape_with_snapshots_partial.
 
 (* ---------------------------------------------------------------- round 11: three clauses over the combined alphabet *)
-From BLB Require Raft.SnapMetaPass Raft.MemberSnapSystem.
+From BLB Require Raft.SnapMetaPass Raft.MemberSnapSystem Raft.MemberSnapSystemU.
 
 (* [FULL] node level, every event, every crash point: each InstallSnap a node emits in an event carries the snapshot metadata (index, term,
    membership) the node held at the start of the event, and the snapshot metadata of a node changes only through SnapshotDone and
@@ -1435,69 +1435,139 @@ Theorem emitted_install_snapshot_carries_own_metadata :
 Proof. exact Raft.SnapMetaPass.snapshot_meta_step. Qed.
 Print Assumptions emitted_install_snapshot_carries_own_metadata.
 
-(* [PARTIAL] clause 1, election safety over the COMBINED alphabet cstep, no premise on configurations: membership changes and snapshots in
+(* [FULL] clause 1, election safety over the COMBINED alphabet cstep, no premise on configurations: membership changes and snapshots in
    one run.  Alphabet: any number of nodes from initial states; every event of Core.run_event on any node with a crash after any
    durable mutation followed by newCore: bootstrap with the one membership bm, delivery of any message ever sent (InstallSnap
    included) any number of times or never, ticks, proposals without configuration entries, AddNode of another node, RemoveNode,
    SnapshotDone as fsm_loop.go issues it (an applied position with its term, and the membership the state machine holds at that
    position, which is the configuration of the store cut at the snapshot index), restarts.  Two nodes recorded as leader of the
-   same term are the same node.  PARTIAL because of ONE restriction on deliveries: an InstallSnap is not delivered to a node
-   that is leader at that moment (such a node ignores it or raft.go panics; the case is not proved) *)
+   same term are the same node.  No restriction on deliveries: an InstallSnap may reach a node that is leader (round 12) *)
 Theorem election_safety_combined :
   forall bm be, NoDup bm ->
   forall a0 a sched,
-    minitS a0 -> run asys sys_event (Raft.MemberSnapSystem.cstep bm be) a0 sched a ->
+    minitS a0 -> run asys sys_event (Raft.MemberSnapSystemU.cstep bm be) a0 sched a ->
     forall t x y, In (t, x) (sy_hist (fst a)) -> In (t, y) (sy_hist (fst a)) -> x = y.
-Proof. exact Raft.MemberSnapSystem.election_safety_combined_sys. Qed.
+Proof. exact Raft.MemberSnapSystemU.election_safety_combined_sys. Qed.
 Print Assumptions election_safety_combined.
 
-(* [PARTIAL] clause 3, log matching over the combined alphabet cstep, on logical logs: there is a ghost assignment Cf fitting the state (every
+(* [FULL] clause 3, log matching over the combined alphabet cstep, on logical logs: there is a ghost assignment Cf fitting the state (every
    store has the shape of its snapshot over the ghost prefix, and the snapshot metadata carries the configuration of the prefix it
    covers) such that two entries of equal index and term in the logical logs (ghost prefix followed by physical log) of two
-   nodes are at the same position and the logs agree up to it.  PARTIAL: same single restriction as election_safety_combined *)
+   nodes are at the same position and the logs agree up to it *)
 Theorem log_matching_combined :
   forall bm be, NoDup bm ->
   forall a0 a sched,
-    minitS a0 -> run asys sys_event (Raft.MemberSnapSystem.cstep bm be) a0 sched a ->
-    exists Cf, Raft.MemberSnapSystem.fitsC a Cf /\
+    minitS a0 -> run asys sys_event (Raft.MemberSnapSystemU.cstep bm be) a0 sched a ->
+    exists Cf, Raft.MemberSnapSystemU.fitsC a Cf /\
       forall x y k k' e e',
         In x (sy_nodes (fst a)) -> In y (sy_nodes (fst a)) ->
-        nth_error (Raft.MemberSnapSystem.llogC Cf x) k = Some e -> nth_error (Raft.MemberSnapSystem.llogC Cf y) k' = Some e' ->
+        nth_error (Raft.MemberSnapSystemU.llogC Cf x) k = Some e -> nth_error (Raft.MemberSnapSystemU.llogC Cf y) k' = Some e' ->
         e_index e = e_index e' -> e_term e = e_term e' ->
-        k = k' /\ firstn (Datatypes.S k) (Raft.MemberSnapSystem.llogC Cf x) = firstn (Datatypes.S k) (Raft.MemberSnapSystem.llogC Cf y).
-Proof. exact Raft.MemberSnapSystem.log_matching_combined_sys. Qed.
+        k = k' /\ firstn (Datatypes.S k) (Raft.MemberSnapSystemU.llogC Cf x) = firstn (Datatypes.S k) (Raft.MemberSnapSystemU.llogC Cf y).
+Proof. exact Raft.MemberSnapSystemU.log_matching_combined_sys. Qed.
 Print Assumptions log_matching_combined.
 
-(* [PARTIAL] clause 2, leader completeness over the combined alphabet cstep, on logical logs: whatever any node has committed at any moment
+(* [FULL] clause 2, leader completeness over the combined alphabet cstep, on logical logs: whatever any node has committed at any moment
    of a run is in the logical log of every leader of a later term at any later moment, under per-configuration quorums that
-   change along the run and across installed snapshots.  PARTIAL: same single restriction as election_safety_combined *)
+   change along the run and across installed snapshots *)
 Theorem leader_completeness_combined :
   forall bm be, NoDup bm ->
   forall a0 a1 a2 sched1 sched2,
-    minitS a0 -> run asys sys_event (Raft.MemberSnapSystem.cstep bm be) a0 sched1 a1 ->
-    run asys sys_event (Raft.MemberSnapSystem.cstep bm be) a1 sched2 a2 ->
-    exists Cf1 Cf2, Raft.MemberSnapSystem.fitsC a1 Cf1 /\ Raft.MemberSnapSystem.fitsC a2 Cf2 /\
+    minitS a0 -> run asys sys_event (Raft.MemberSnapSystemU.cstep bm be) a0 sched1 a1 ->
+    run asys sys_event (Raft.MemberSnapSystemU.cstep bm be) a1 sched2 a2 ->
+    exists Cf1 Cf2, Raft.MemberSnapSystemU.fitsC a1 Cf1 /\ Raft.MemberSnapSystemU.fitsC a2 Cf2 /\
       forall x b,
         In x (sy_nodes (fst a1)) -> In b (sy_nodes (fst a2)) -> n_role b = Leader -> p_term (n_p x) < p_term (n_p b) ->
-        (N.to_nat (n_commit x) <= length (Raft.MemberSnapSystem.llogC Cf1 x))%nat /\
-        firstn (N.to_nat (n_commit x)) (Raft.MemberSnapSystem.llogC Cf2 b) = firstn (N.to_nat (n_commit x)) (Raft.MemberSnapSystem.llogC Cf1 x).
-Proof. exact Raft.MemberSnapSystem.leader_completeness_combined_sys. Qed.
+        (N.to_nat (n_commit x) <= length (Raft.MemberSnapSystemU.llogC Cf1 x))%nat /\
+        firstn (N.to_nat (n_commit x)) (Raft.MemberSnapSystemU.llogC Cf2 b) = firstn (N.to_nat (n_commit x)) (Raft.MemberSnapSystemU.llogC Cf1 x).
+Proof. exact Raft.MemberSnapSystemU.leader_completeness_combined_sys. Qed.
 Print Assumptions leader_completeness_combined.
 
+From BLB Require Raft.MemberSnapSystemU Raft.CombinedRunC Raft.CombinedRunU.
+
+(* [FULL] non-vacuity of the combined alphabet cstep with bm = 1, 2: the 20-step combined run replayed as a run of cstep from an initial state,
+   every side condition checked at its step: AddNode 3 committed; SnapshotDone on the leader at the applied position 3 with its
+   term 2 and the configuration 1, 2, 3 of the store cut at index 3, which trims the whole log; the InstallSnap sent to the
+   lagging follower 3 and installed by it; RemoveNode 2 appended above the snapshot and committed by the
+   quorum of 1, 3.  The three combined theorems are instantiated on this run: election safety on the final state, log matching
+   on the logical logs of the final state, leader completeness between the state after AddNode and the final state *)
+Theorem combined_run_nonvacuous :
+  minitS A0 /\ NoDup [1; 2] /\ run asys sys_event (Raft.MemberSnapSystemU.cstep [1; 2] 5) A0 schedC C20 /\
+  (In (1, EAddNode 3 77, 0) schedC /\ In (1, ESnapDone sm3, 0) schedC /\ In (3, EDeliver q15, 0) schedC /\ In (1, ERemoveNode 2, 0) schedC) /\
+  (body_kind q15, m_from q15, m_to q15) = (5, 1, 3) /\
+  cview C16 =
+    [(1, Leader, 2, [1; 2; 3], 3, [], Some (3, 2, [1; 2; 3]));
+     (2, Follower, 2, [1; 2; 3], 2, [(1, 1); (2, 2); (3, 2)], None);
+     (3, Follower, 2, [1; 2; 3], 3, [], Some (3, 2, [1; 2; 3]))] /\
+  cview C20 =
+    [(1, Leader, 2, [1; 3], 4, [(4, 2)], Some (3, 2, [1; 2; 3]));
+     (2, Follower, 2, [1; 2; 3], 2, [(1, 1); (2, 2); (3, 2)], None);
+     (3, Follower, 2, [1; 3], 3, [(4, 2)], Some (3, 2, [1; 2; 3]))] /\
+  (forall t x y, In (t, x) (sy_hist (fst C20)) -> In (t, y) (sy_hist (fst C20)) -> x = y) /\
+  (exists Cf, Raft.MemberSnapSystemU.fitsC C20 Cf /\
+     forall x y k k' e e',
+       In x (sy_nodes (fst C20)) -> In y (sy_nodes (fst C20)) ->
+       nth_error (Raft.MemberSnapSystemU.llogC Cf x) k = Some e -> nth_error (Raft.MemberSnapSystemU.llogC Cf y) k' = Some e' ->
+       e_index e = e_index e' -> e_term e = e_term e' ->
+       k = k' /\ firstn (Datatypes.S k) (Raft.MemberSnapSystemU.llogC Cf x) = firstn (Datatypes.S k) (Raft.MemberSnapSystemU.llogC Cf y)) /\
+  (exists Cf1 Cf2, Raft.MemberSnapSystemU.fitsC A13 Cf1 /\ Raft.MemberSnapSystemU.fitsC C20 Cf2 /\
+     forall x b,
+       In x (sy_nodes (fst A13)) -> In b (sy_nodes (fst C20)) -> n_role b = Leader -> p_term (n_p x) < p_term (n_p b) ->
+       (N.to_nat (n_commit x) <= length (Raft.MemberSnapSystemU.llogC Cf1 x))%nat /\
+       firstn (N.to_nat (n_commit x)) (Raft.MemberSnapSystemU.llogC Cf2 b) = firstn (N.to_nat (n_commit x)) (Raft.MemberSnapSystemU.llogC Cf1 x)).
+Proof. exact Raft.CombinedRunU.combined_run_nonvacuous_U. Qed.
+Print Assumptions combined_run_nonvacuous.
+
+From BLB Require Raft.LeaderInstall Raft.MemberSnapSMS Raft.CombinedRunSMS.
+
+(* [FULL] node level, any crash point: a node that is leader when an InstallSnap is delivered to it and that ends the event in the same term
+   has changed neither its log nor its snapshot metadata (the message was dropped or stale; one of the leader's own term is
+   fatal in core.go, one of a higher term raises the term); this removes the delivery restriction of round 11 *)
+Theorem leader_ignores_install_snapshot :
+  forall C s m li lt cf k crashed st s',
+    LogMatchNodeSQ.shape C (n_p s) (n_commit s) -> n_role s = Leader -> m_body m = InstallSnap li lt cf ->
+    run_event_crash (settle s) (EDeliver m) k = Ret (crashed, st, s') -> p_term (n_p s') = p_term (n_p s) ->
+    p_log (n_p s') = p_log (n_p s) /\ p_snap (n_p s') = p_snap (n_p s).
+Proof. exact Raft.LeaderInstall.leader_install_unchanged. Qed.
+Print Assumptions leader_ignores_install_snapshot.
+
+(* [FULL] clause 4, state machine safety over the combined alphabet cstep (membership changes, snapshots, trims, InstallSnap traffic,
+   restarts, crash points in one run, no restriction on deliveries): entries handed to the state machine by any two nodes at any
+   two moments of a run with the same index are equal *)
+Theorem state_machine_safety_combined :
+  forall bm be, NoDup bm ->
+  forall a0 a1 a2 sched1 sched2,
+    minitS a0 -> run asys sys_event (Raft.MemberSnapSystemU.cstep bm be) a0 sched1 a1 ->
+    run asys sys_event (Raft.MemberSnapSystemU.cstep bm be) a1 sched2 a2 ->
+    forall n1 n2 x y,
+      In n1 (sy_nodes (fst a1)) -> In n2 (sy_nodes (fst a2)) -> In x (n_commits n1) -> In y (n_commits n2) ->
+      e_index x = e_index y -> x = y.
+Proof. exact Raft.MemberSnapSMS.state_machine_safety_combined_sys. Qed.
+Print Assumptions state_machine_safety_combined.
+
+(* [FULL] non-vacuity of state_machine_safety_combined: instantiated between the state after AddNode (where an entry of index 3 has just
+   been handed to the state machine) and the final state of the 20-step combined run (where the entry of index 4, the removal
+   of node 2 committed above the snapshot, has just been handed over) *)
+Theorem state_machine_safety_combined_nonvacuous :
+  run asys sys_event (Raft.MemberSnapSystemU.cstep [1; 2] 5) A0 (sched10 ++ Raft.CombinedRunC.sched13) A13 /\
+  run asys sys_event (Raft.MemberSnapSystemU.cstep [1; 2] 5) A13 Raft.CombinedRunC.schedT C20 /\
+  (forall n1 n2 x y, In n1 (sy_nodes (fst A13)) -> In n2 (sy_nodes (fst C20)) -> In x (n_commits n1) -> In y (n_commits n2) ->
+     e_index x = e_index y -> x = y) /\
+  existsb (fun s => existsb (fun y => e_index y =? 3) (n_commits s)) (sy_nodes (fst A13)) = true /\
+  existsb (fun s => existsb (fun y => e_index y =? 4) (n_commits s)) (sy_nodes (fst C20)) = true.
+Proof. exact Raft.CombinedRunSMS.combined_run_sms. Qed.
+Print Assumptions state_machine_safety_combined_nonvacuous.
+
 (* NOT YET PROVED (statements kept visible; listed in props/C02.json not_yet_proved):
-   over the COMBINED alphabet cstep (membership changes AND snapshots in one run; round 11, Raft/MemberSnapSystem.v) election safety
-   without premise, log matching and leader completeness are proved (election_safety_combined, log_matching_combined,
-   leader_completeness_combined).  OPEN:
-   (1) the one restriction of cstep on deliveries: an InstallSnap is not delivered to a node that is leader at that moment.  The
-       missing case is node level: such a node, if it ends the event as leader of the same term, has ignored the message (lower term)
-       so that its logical log is unchanged; the argument (entries of a would-be suffix come from the sender's record, whose terms
-       are below the leader's term) is written down in notes/C02.md but not proved;
-   (2) state machine safety over the combined alphabet: needs the applied-entries lemma (entries handed to the state machine lie in
-       the own logical log below the commit index) for cstep, i.e. round 5's applS_step extended by AddNode / RemoveNode, and then
-       committedM_comparable on the virtual system as in round 8;
-   (3) the instance of the three theorems on the 20-step combined run of Raft/CombinedExample.v (the run is a run of kstep; it has
-       to be replayed as a run of cstep, which needs the side conditions evresC at each step, SnapshotDone included).
+   nothing remains open for the four clauses over the combined alphabet cstep of Raft/MemberSnapSystemU.v (membership changes AND
+   snapshots in one run, no restriction on deliveries): election_safety_combined, leader_completeness_combined,
+   log_matching_combined, state_machine_safety_combined, with combined_run_nonvacuous and
+   state_machine_safety_combined_nonvacuous as witnesses.
    Side conditions of cstep that are not hypotheses of raft.go: proposals carry no configuration entries (raft.go proposes them
-   only through AddNode / RemoveNode), nobody asks a node to add itself, one bootstrap membership without duplicates.
+   only through AddNode / RemoveNode), nobody asks a node to add itself, one bootstrap membership without duplicates; SnapshotDone
+   is issued as fsm_loop.go issues it (an applied position with its term and lastAppliedMembership).  Log matching and leader
+   completeness are stated over logical logs through a ghost assignment whose existence is part of the statement.
+   Still open outside the four clauses: the leader-loop contract leader_commits_own_suffix_with_snapshots excludes AddNode,
+   RemoveNode, SnapshotDone and Restart inside the loop, and its start condition is an assumption about raft.go's loop.
    On the real code all four clauses are evaluated after every event by the monitors of the Go simulation, whose random
    schedules mix snapshots, trims, AddNode and RemoveNode. *)
